@@ -938,7 +938,8 @@ func (handler *Handler) QueryResponseHandler(ctx context.Context, packet *Packet
 			return err
 		}
 	}
-	handler.resetQueryHandler()
+	// the handler was reset at the start: once the last packet is written the client may already have sent the next
+	// command, whose handler must not be reset here
 	handler.logger.Debugln("Query handler finish")
 	return nil
 }
@@ -969,20 +970,22 @@ func (handler *Handler) PreparedStatementResponseHandler(ctx context.Context, pa
 	preparedStmt := NewPreparedStatement(response.StatementID, response.ParamsNum, queryObj.Query(), statement)
 	handler.registry.AddStatement(NewPreparedStatementItem(preparedStmt, nil))
 
-	// proxy output
-	handler.logger.Debugln("PreparedStatementResponseHandler.Proxy output")
-	if _, err := clientConnection.Write(packet.Dump()); err != nil {
-		handler.logger.WithError(err).WithField(logging.FieldKeyEventCode, logging.EventCodeErrorNetworkWrite).
-			Debugln("Can't proxy output")
-		return err
-	}
-
+	// choose the handler of the next packet before the client sees this one: when nothing follows, the client may
+	// send the next command right away and the handler it sets must not be overwritten
 	handler.resetQueryHandler()
 	// if prams_num > 0 params definition block will follow
 	// https://dev.mysql.com/doc/internals/en/com-stmt-prepare-response.html
 	if response.ParamsNum > 0 {
 		fieldTracker := NewPreparedStatementFieldTracker(handler, response.ColumnsNum)
 		handler.setQueryHandler(fieldTracker.ParamsTrackHandler)
+	}
+
+	// proxy output
+	handler.logger.Debugln("PreparedStatementResponseHandler.Proxy output")
+	if _, err := clientConnection.Write(packet.Dump()); err != nil {
+		handler.logger.WithError(err).WithField(logging.FieldKeyEventCode, logging.EventCodeErrorNetworkWrite).
+			Debugln("Can't proxy output")
+		return err
 	}
 	handler.logger.Debugln("Prepared Statement registered successfully")
 	return nil
